@@ -92,8 +92,37 @@ def jLCmd : LCmd → Json
   | .loss (.num q) r => jarr [Json.str "LossChannel", natList r, jrat q]
   | .loss .param r => jarr [Json.str "LossChannel", natList r, Json.str "param"]
 
+def asBlock (j : Json) : R (Nat × Nat × Rat × Rat) := do
+  let a ← j.getArr?
+  match a.toList with
+  | [m, n, x, y] => pure (← m.getNat?, ← n.getNat?, ← asRat x, ← asRat y)
+  | _ => throw "block: expected [m, n, phi_i, phi_e]"
+
+def jBlock (t : Nat × Nat × Rat × Rat) : Json := jarr [jnat t.1, jnat t.2.1, jrat t.2.2.1, jrat t.2.2.2]
+
 def handler (op : String) (j : Json) : Option (R Json) :=
   match op with
+  | "hw.gbsOptions" => some do
+    let B ← (← getArr j "B").mapM fun e => do
+      let regs ← asNatList (← e.getObjVal? "regs")
+      let sel ← match e.getObjVal? "select" with
+        | .ok v => if v.isNull then pure none else do pure (some (← asNatList v))
+        | .error _ => pure none
+      let dk ← match e.getObjVal? "dark" with
+        | .ok v => if v.isNull then pure none else do pure (some (← asRatList v))
+        | .error _ => pure none
+      pure (⟨regs, sel, dk⟩ : FockCmd)
+    match gbsOptions B with
+    | .error _ => pure (Json.str "CircuitError")
+    | .ok (m, s, d) => pure <| Json.mkObj [("modes", natList m),
+        ("select", match s with | none => Json.null | some l => natList l),
+        ("dark", match d with | none => Json.null | some l => jarr (l.map jrat))]
+  | "hw.symPush" => some do
+    let ti ← (← getArr j "tilist").mapM asBlock
+    let tl ← (← getArr j "tlist").mapM asBlock
+    let d ← asRatList (← j.getObjVal? "diags")
+    let (nt, nd) := symmetricPush ti d tl
+    pure <| Json.mkObj [("tlist", jarr (nt.map jBlock)), ("diags", jarr (nd.map jrat))]
   | "hw.addLoss" => some do
     let circ ← (← getArr j "circ").mapM fun e => do
       let a ← e.getArr?
